@@ -24,6 +24,8 @@ INH_SMALL = [
 ]
 
 BOUNDS = {
+    # "small": for the checks that do heavy work per item (precompilation, many environment classes)
+    "small": {"stmt": ("tiny", 2), "stmt2": ("core", 2), "inh": INH_SMALL[:2], "ctx": "quick", "ctx_filter": "no-template-globals"},
     "quick": {"stmt": ("tiny", 3), "stmt2": ("mid", 2), "inh": INH_SMALL, "ctx": "quick"},
     "thorough": {"stmt": ("mid", 3), "stmt2": ("full", 2), "inh": "quick", "ctx": "thorough"},
 }
@@ -82,10 +84,14 @@ def _inh_items(bound, shard):
         yield Item("inh", case, data, src, main, {"inh": I.tojson(case)})
 
 
-def _ctx_items(bound, shard):
+def _ctx_items(bound, shard, flt=None):
     for case in C.cases(bound, shard=shard):
         if case[0] == "mod":
             continue
+        if flt == "no-template-globals":
+            f = C._fields(case)
+            if f.get("mglob") or f.get("hglob"):
+                continue
         src, main, data = C.to_templates(case)
         yield Item("ctx", case, data, src, main, {"ctx": C.tojson(case)})
 
@@ -98,7 +104,7 @@ def items(tier, shard=None, kinds=("stmt", "inh", "ctx")):
     if "inh" in kinds:
         yield from _inh_items(b["inh"], shard)
     if "ctx" in kinds:
-        yield from _ctx_items(b["ctx"], shard)
+        yield from _ctx_items(b["ctx"], shard, b.get("ctx_filter"))
 
 
 def outcome(fn):
